@@ -49,9 +49,10 @@ pub fn install_panic_hook() {
 /// Perform one observed call into the crate under test.
 pub fn call<R>(f: impl FnOnce() -> R) -> Result<R, Panicked> {
     IN_CALL.with(|c| *c.borrow_mut() += 1);
+    crate::watchdog::call_enter();
     let r = catch_unwind(AssertUnwindSafe(f));
+    crate::watchdog::call_exit();
     IN_CALL.with(|c| *c.borrow_mut() -= 1);
-    crate::watchdog::tick();
     match r {
         Ok(v) => Ok(v),
         Err(_) => Err(LAST_PANIC
